@@ -382,6 +382,7 @@ func drawC19(t *rapid.T, cli bool) C19Case {
 		Prices: 1,
 		MaxDec: 4,
 	}
+	gen.MaybeLarge(t, &cfg, 4)
 	j := gen.GenJournal(t, cfg)
 	c := C19Case{Directives: j.Directives}
 	c.V = rapid.SampledFrom(append([]string{""}, j.Commodities...)).Draw(t, "valuation")
